@@ -301,6 +301,7 @@ fn fam_inflate(s: &Script, st: &mut Stats) -> Result<RunInfo, Violation> {
         let mut tail = 0usize;
         let mut opi = 0usize;
         let mut produced: Vec<u8> = Vec::new();
+        let mut last_rc = 0i32;
         loop {
             let (chunk, ol, fl) = if opi < s.ops.len() {
                 let o = &s.ops[opi];
@@ -360,12 +361,29 @@ fn fam_inflate(s: &Script, st: &mut Stats) -> Result<RunInfo, Violation> {
                 }
             }
             pos += din;
+            last_rc = rc;
             let progressed = din > 0 || dout > 0;
             if rc == MZStatus::StreamEnd as i32 && opi >= s.ops.len() {
                 break;
             }
             if rc < 0 && opi > s.ops.len() && !(rc == MZError::Buf as i32 && progressed) {
                 break;
+            }
+        }
+        let ended = strm.total_out as usize == produced.len() && last_rc == MZStatus::StreamEnd as i32;
+        if s.c("enc_len") > 0 {
+            // C06 through the C entry point: total_in / next_in stop exactly at the end of the stream
+            if !ended {
+                return viol("C06.completes", format!("[mz_inflate] valid stream + trailing bytes ended with rc {}", last_rc));
+            }
+            if strm.total_in as usize != s.c("enc_len") as usize || pos != s.c("enc_len") as usize {
+                return viol("C06.consumed_exact", format!("[mz_inflate] stream of {} bytes followed by {} trailing bytes: total_in = {}", s.c("enc_len"), n - s.c("enc_len") as usize, strm.total_in));
+            }
+        }
+        if s.c("expect_valid") != 0 {
+            let v = crate::refinf::inflate(&m, &crate::refinf::Opts::flat(wb == 15));
+            if !ended || produced != v.out {
+                return viol("C03.valid_stream_finishes", format!("[mz_inflate] valid stream ended with rc {} after {} of {} bytes", last_rc, produced.len(), v.out.len()));
             }
         }
         let rc = c::mz_inflateEnd(&mut strm);
@@ -659,6 +677,8 @@ fn fam_tinfl(s: &Script, st: &mut Stats) -> Result<RunInfo, Violation> {
         let mut k = 0usize;
         let mut tail = 0usize;
         let mut opi = 0usize;
+        let mut last_status = 1i32;
+        let mut collected: Vec<u8> = Vec::new();
         loop {
             let (chunk, window) = if opi < s.ops.len() {
                 (s.ops[opi][0].max(0) as usize, s.ops[opi][1])
@@ -707,10 +727,12 @@ fn fam_tinfl(s: &Script, st: &mut Stats) -> Result<RunInfo, Violation> {
                 return viol("C17.same_bytes_as_rust", format!("tinfl_decompress call {}: buffer contents differ from decompress()", k));
             }
             pos += in_size;
+            collected.extend_from_slice(&rout[out_pos..out_pos + out_size]);
             out_pos += out_size;
             if ring && out_pos == cap {
                 out_pos = 0;
             }
+            last_status = rc;
             use miniz_oxide::inflate::TINFLStatus as T;
             match es {
                 T::NeedsMoreInput => {
@@ -724,6 +746,20 @@ fn fam_tinfl(s: &Script, st: &mut Stats) -> Result<RunInfo, Violation> {
                     }
                 }
                 _ => break,
+            }
+        }
+        if s.c("enc_len") > 0 {
+            if last_status != 0 {
+                return viol("C06.completes", format!("[tinfl_decompress] valid stream + trailing bytes ended with status {}", last_status));
+            }
+            if pos != s.c("enc_len") as usize {
+                return viol("C06.consumed_exact", format!("[tinfl_decompress] stream of {} bytes followed by {} trailing bytes: {} bytes reported consumed through *in_buf_size", s.c("enc_len"), n - s.c("enc_len") as usize, pos));
+            }
+        }
+        if s.c("expect_valid") != 0 {
+            let v = crate::refinf::inflate(&m, &crate::refinf::Opts::flat(zlib));
+            if last_status != 0 || collected != v.out {
+                return viol("C03.valid_stream_finishes", format!("[tinfl_decompress] valid stream ended with status {} after {} of {} bytes", last_status, collected.len(), v.out.len()));
             }
         }
         // one-shot helpers
